@@ -10,9 +10,10 @@ standards' syntax as bit-exact encoders and the derived dimensions), Spec/H264Ag
 -/
 import IpcHub.Lemmas.H264Sps
 import IpcHub.Lemmas.H264Dims
+import IpcHub.Lemmas.Asc
 import IpcHub.Model.CodecInst
 namespace IpcHub.Props.C15
-open IpcHub.Bits IpcHub.BitSyntax IpcHub.Epb IpcHub.H264 IpcHub.H264Syntax
+open IpcHub.Bits IpcHub.BitSyntax IpcHub.Epb IpcHub.H264 IpcHub.H264Syntax IpcHub.AscSyntax
 
 /-- The source facts the theorems rest on, regenerated from /repo on every run: the reader's
     constants and the statements of `ReadUe`, `ReadSe`, `readUint64`; the H.264 constants, the
@@ -124,6 +125,42 @@ theorem c15_h264_pinned_counterexamples :
     H264.frameRate old (toRaw sFps) = some (50, 2) ∧ H264Syntax.frameRate sFps = some (50, 2 ^ 32 + 2) := by
   decide
 
+/-! ### AudioSpecificConfig -/
+
+/-- The regenerated AAC facts (Table 1.18 sampling frequencies, Table 1.19 channel counts, the object
+    type numbers, the hierarchical-signalling guard, the sync extension types) are the standard's. -/
+theorem c15_asc_source_facts :
+    IpcHub.Asc.genCfg = IpcHub.Asc.stdCfg ∧ IpcHub.Gen.aacSyncExtTypes = [0x2b7, 0x548] ∧
+    IpcHub.Gen.aacHierGuard = "asc.ObjectType == AOT_SBR || (asc.ObjectType == AOT_PS && !(r.Peek(3)&0x03 != 0 && r.Peek(9)&0x3F == 0))" :=
+  ⟨rfl, rfl, rfl⟩
+
+/-- C15 / AAC for the current source tree: for every AudioSpecificConfig syntax tree in range — GA object
+    types 1–4 or an escaped object type, table or explicit 24-bit sampling frequency, channel
+    configurations 1–7, no / hierarchical (AOT 5, AOT 29) / backward-compatible (0x2b7, 0x548) SBR and PS
+    signalling — `AudioSpecificConfig.Decode` on the bytes of the specification's encoder succeeds with the
+    object type and core frequency of the tree, and `aac.MetadataIsReady` reports the channel count of
+    Table 1.19 and the stream's sampling rate (the extension frequency when SBR is signalled present). -/
+theorem c15_asc (s : AscSyntax) (wf : AscWF s) :
+    (∃ a, IpcHub.Asc.decode IpcHub.Asc.genCfg (encAsc s) = .ok a ∧ a.objectType = s.aot ∧
+          a.sampleRate = frequencyOf s.samplingFrequencyIndex s.samplingFrequency ∧
+          a.channels = channelCount s.channelConfiguration ∧ a.extSampleRate = IpcHub.Asc.extRateOf s) ∧
+    IpcHub.Asc.metadataIsReady IpcHub.Asc.genCfg (encAsc s) = some (streamChannels s, streamRate s) := by
+  rw [c15_asc_source_facts.1]
+  obtain ⟨a, hd, hs⟩ := IpcHub.Asc.decode_enc s wf
+  simp only [IpcHub.Asc.summary, Prod.mk.injEq] at hs
+  exact ⟨⟨a, hd, hs.1, hs.2.2.1, hs.2.2.2.1, hs.2.2.2.2⟩, IpcHub.Asc.metadataIsReady_enc s wf⟩
+
+/-- The pinned tree's guard (`Peek(3)&3 == 0 && Peek(9)&0x3F == 0`, a wrong negation of FFmpeg's MP3onMP4
+    draft check) took an HE-AAC v2 configuration with audioObjectType 29 for a plain object type:
+    the 24 kHz core rate was reported instead of the 48 kHz of the stream (corpus/C15/asc-ps.case). -/
+theorem c15_asc_pinned_counterexample :
+    let old : IpcHub.Asc.Cfg := { IpcHub.Asc.stdCfg with psGuardFFmpeg := false }
+    let s : AscSyntax := { aot := 2, samplingFrequencyIndex := 6, channelConfiguration := 1,
+                           signalling := .hierarchical true 3 0 }
+    IpcHub.Asc.metadataIsReady old (encAsc s) = some (1, 24000) ∧ streamRate s = 48000 ∧
+    IpcHub.Asc.metadataIsReady IpcHub.Asc.stdCfg (encAsc s) = some (1, 48000) := by
+  decide
+
 /-! ### non-vacuity -/
 
 /-- a syntax tree with scaling lists (one ending early), POC type 1 with negative offsets, field
@@ -146,5 +183,10 @@ example : SpsWF
   · intro _
     refine { cnt := ?_, brs := ?_, css := ?_, cpb := ?_, l1 := ?_, l2 := ?_, l3 := ?_, l4 := ?_ } <;> decide
   · intro h; exact absurd h (by decide)
+
+/-- HE-AAC v2 with backward-compatible explicit signalling and an explicit extension frequency meets `AscWF` -/
+example : AscWF { aot := 2, samplingFrequencyIndex := 6, channelConfiguration := 1,
+                  signalling := .backward true 15 48000 (some true) } := by
+  refine { aot := ?_, idx := ?_, freq := ?_, cc := ?_, sig := ?_ } <;> decide
 
 end IpcHub.Props.C15
